@@ -60,6 +60,11 @@ CLAIMED = {
          "seeded histories over a colliding alphabet (case pairs, SQL wildcards, regex metacharacters, unicode, empty string, the name server's own entry) with three-way comparison of every result and of the full listing after every mutation and reopen; in fault configuration, for EVERY execute/commit of every mutating operation: inject OperationalError -> NamingError and no effect after reopen; crash (abandon connection, reopen copied db+journal) -> state before or after the operation, never partial",
          "histories are sampled, statement boundaries within a history are enumerated exhaustively; crash points are Python-level statement boundaries (sqlite's own journal is trusted); connect()/fetch never fail",
          "DESIGN.md section 4 C14"),
+ "C13": ("exploration",
+         "deterministic simulation: real Daemon (both server types, counting clientDisconnect hook, resource tracking, session instances) with raw protocol-speaking peers over in-memory sockets whose connections end at scripted byte offsets / by RST / malformed request / server timeout / SecurityError while others stay open; virtual clock for COMMTIMEOUT",
+         "seeded search over 2-4 concurrent connections x ending kinds (orderly close; close or RST at any byte of a request's header, annotations or payload; malformed request; partial-request and idle timeouts; SecurityError; one-way then close; RST while idle; still open) x tracked/untracked resource counts x raising user hook / raising resource close() x server types x COMMTIMEOUT x schedules; oracle at quiescence: hook exactly once per ended accepted connection (0 while open, at most once for refused handshakes), every still-tracked resource closed exactly once and untracked ones never, session instances and tracked set dropped, server-side socket closed, no busy worker / selector key left, open connections keep answering, the request loop never ends",
+         "samples endings and schedules; resources are tracked from normal calls only; RST-on-close-with-unread-data not modelled",
+         "DESIGN.md section 4 C13"),
 }
 PENDING = "claimed in DESIGN.md but its check is not built yet; see DESIGN.md section 4"
 ALL = ["C%02d" % i for i in range(1, 21)]
